@@ -40,6 +40,7 @@
 #include <unistd.h>
 #include <fcntl.h>
 #include <sys/stat.h>
+#include <execinfo.h>
 #include <sanitizer/lsan_interface.h>
 #include <sanitizer/common_interface_defs.h>
 #include <sanitizer/allocator_interface.h>
@@ -150,11 +151,18 @@ static void track_del(void *p)
 	}
 }
 
+/* call stack of the allocator call that was made to fail (symbolised only when reporting) */
+static void *fault_stack[24];
+static int fault_depth;
+
 static int win_should_fail(void)
 {
 	int i = win_count++;
 	if (i == win_fail_at) {
 		win_fired = 1;
+		win_on = 0;
+		fault_depth = backtrace(fault_stack, 24);
+		win_on = 1;
 		errno = ENOMEM;
 		return 1;
 	}
@@ -269,6 +277,40 @@ static void site_of(void *pc, char *buf, size_t n)
 	b = strrchr(s, '/');
 	b = b ? b + 1 : s;
 	snprintf(buf, n, "%s:%s:%s", b, f, l ? l : "0");
+}
+
+/* "fault site=<file:func:line of the failed allocator call> loader=<first *_load.c / depacker / prowizard file on the stack>" */
+static void print_fault(void)
+{
+	char site[600], first[600];
+	const char *loader = "-";
+	static char lbuf[600];
+	int i;
+	if (!win_fired || fault_depth < 3)
+		return;
+	first[0] = 0;
+	for (i = 2; i < fault_depth; i++) {
+		char *c;
+		site_of(fault_stack[i], site, sizeof(site));
+		if (strstr(site, "__wrap_") != NULL || strstr(site, "c04_faults.c") != NULL)
+			continue;
+		if (first[0] == 0)
+			snprintf(first, sizeof(first), "%s", site);
+		c = strchr(site, ':');
+		if (c != NULL) {
+			size_t n = (size_t)(c - site);
+			char tmp[600], full[900];
+			tmp[0] = 0;
+			__sanitizer_symbolize_pc((char *)fault_stack[i] - 1, "%s", full, sizeof(full));
+			if ((n > 7 && !strncmp(c - 7, "_load.c", 7)) || strstr(full, "/depackers/") != NULL ||
+			    strstr(full, "/prowizard/") != NULL) {
+				snprintf(lbuf, sizeof(lbuf), "%.*s", (int)n, site);
+				loader = lbuf;
+				break;
+			}
+		}
+	}
+	printf("fault site=%s loader=%s\n", first[0] ? first : "?", loader);
 }
 
 /* print one `leak` line per live block of generation gen (-1: all); returns count */
@@ -1104,6 +1146,8 @@ static int run_case(int op, struct source *src, int k, int isbase)
 		base.rc = rc;
 		base.n = n;
 	}
+	if (viol > 0)
+		print_fault();
 	printf("%s op=%s k=%d n=%d fired=%d rc=%d state=%d residue=%d leaks=%d fd=%d/%d tmp=%d/%d %s reuse=%d mdig=%016llx pdig=%016llx viol=%d\n",
 	       isbase ? "base" : "k", opname, k, n, fired, rc, state, residue, leaks, fd0, fd1, tmp0, tmp1,
 	       own[0] ? own : "own=na", reuse_ok, (unsigned long long)md, (unsigned long long)pd, viol);
@@ -1396,7 +1440,8 @@ int main(int argc, char **argv)
 	int rc = 2;
 	char warm[600];
 	setvbuf(stdout, NULL, _IOFBF, 1 << 16);
-	site_of((void *)((char *)&main + 8), warm, sizeof(warm));	/* starts the symbolizer before fds are counted */
+	site_of((void *)((char *)&main + 8), warm, sizeof(warm));
+	fault_depth = backtrace(fault_stack, 24);	/* loads the unwinder now */	/* starts the symbolizer before fds are counted */
 	if (argc < 2) {
 		fprintf(stderr, "usage: see the head of c04_faults.c\n");
 		return 2;
